@@ -404,7 +404,7 @@ Proof.
     destruct (drop_ok n pid p Hn Hg) as [n' [Hr [Hn' _]]]. rewrite Hr. cbn [bind].
     eexists. split; [reflexivity|]. cbn [no_net no_sent nmk]. split; [exact Hn'|].
     constructor; [|constructor]. cbn [snd]. unfold dgram_ok. split; [exact I|]. split; [unfold SEQ_MOD; lia|].
-    split; [exact Hsz|apply reason_forallb, Hnul].
+    split; [exact Hsz|]. split; [apply reason_forallb, Hnul|exact Hlen].
   - (* disconnect *)
     destruct Hv as [p [Hg [Eu [Hnul Hlen]]]]. rewrite Hg, Eu.
     destruct (get_peer_ok _ _ _ Hn Hg) as [Hc Hd].
